@@ -261,11 +261,9 @@ def item_of(it):
     return {"pt": [tuple(x) for x in it["pt"]], "prob": it["prob"], "base_prob": it["base_prob"]}
 
 
-def check_restored(grid, q, m, pops, replay, label):
-    """oracle on the restored queue and its first `pops` pops; returns (violations, popped items, exhausted, stats)"""
+def check_queue(grid, queued, m, replay, label):
+    """oracle on the content of the restored queue"""
     vio = []
-    queued = [item_of(qi.pt_item) for qi in q.p_queue]
-    stats = {"frontier": len(queued), "walk_depth": max([sum(i for _, i in it["pt"]) for it in queued] or [0])}
     if any(it["prob"] > m for it in queued):
         vio.append({"sig": "C08:too-probable", "what": "%s: the restored queue holds a pre-terminal above the saved probability %r"
                     % (label, m), "replay": replay})
@@ -282,6 +280,23 @@ def check_restored(grid, q, m, pops, replay, label):
         vio.append({"sig": "C08:repeat-below-saved", "what": "%s (m=%r): %d restored pre-terminal(s) with a probability other than the saved one "
                     "are queued twice or also have a parent at or below the saved probability that creates them again, e.g. %r"
                     % (label, m, len(extra), extra[:2]), "replay": replay})
+    return vio
+
+
+def check_restored(grid, q, m, pops, replay, label):
+    """oracle on the restored queue and its first `pops` pops; returns (violations, popped items, exhausted, stats)"""
+    vio = []
+    try:
+        queued = [item_of(qi.pt_item) for qi in q.p_queue]
+    except AttributeError:
+        queued = None       # the queue keeps its items some other way: only the emitted stream is judged
+    if queued is None:
+        stats = {"frontier": -1, "walk_depth": 0}
+        vq = []
+    else:
+        stats = {"frontier": len(queued), "walk_depth": max([sum(i for _, i in it["pt"]) for it in queued] or [0])}
+        vq = check_queue(grid, queued, m, replay, label)
+    vio += vq
     B = []
     exhausted = False
     while len(B) < pops:
